@@ -6,7 +6,12 @@ From Cffi Require Import C20.Model C20.Proofs.
 Open Scope Z_scope.
 
 (* ffi.new(T, init) = a zero block of the size computed by the sizing pass, then the same
-   convert_from_object that an assignment performs *)
+   convert_from_object that an assignment performs.
+   NOTE (reviewer's remark, accepted): this is the unfolding of new_bytes — the model has ONE `fill`,
+   used by both forms, because direct_newp and cdata_ass_sub literally call the same C function
+   convert_from_object.  It carries no information beyond that modelling decision; what ties
+   "p = ffi.new(T, init)" to "p = ffi.new(T); p[0] = init" is the correspondence run on the real code
+   (bytes of both forms compared on every generated case, tools/props/c20.py). *)
 Theorem C20_new_is_assign : forall fuel T init,
   new_bytes fuel T init =
   bind (alloc_size fuel T init) (fun n =>
@@ -35,25 +40,48 @@ Theorem C20_sizing_dominates : forall fuel T init,
 Proof. exact sizing_dominates. Qed.
 Print Assumptions C20_sizing_dominates.
 
-(* the invariant behind it, usable for assignments too: converting any initialiser into a
-   fixed-size type at offset off touches only the block and keeps its length, whenever
-   [off, off + sizeof) lies inside the block: a nested initialiser cannot spill over *)
+(* Frame, the invariant behind it (usable for assignments too): converting any initialiser into a
+   fixed-size type at offset off changes no byte outside [off, off + sizeof), never leaves the
+   block and keeps its length, whenever that range lies inside the block: a nested initialiser
+   cannot spill over into neighbouring members *)
 Theorem C20_assign_stays_inside : forall fuel t off init m,
   wf_type t = true -> agg_var t = false -> 0 <= lsize t ->
   0 <= off -> off + lsize t <= mlen m ->
   fill fuel t off init m <> Err SegV /\
-  forall m', fill fuel t off init m = Ok m' -> mlen m' = mlen m.
+  forall m', fill fuel t off init m = Ok m' ->
+    mlen m' = mlen m /\
+    forall i, 0 <= i -> i < off \/ off + lsize t <= i -> byte m' i = byte m i.
 Proof. exact assign_safe. Qed.
 Print Assumptions C20_assign_stays_inside.
 
 (* general form: a block as large as the sizing pass asks for (need) is enough for the filling
-   pass, at every offset and nesting depth *)
+   pass, at every offset and nesting depth, and nothing outside [off, off + need) changes *)
 Theorem C20_need_is_enough : forall fuel t off v m n,
   wf_type t = true -> 0 <= lsize t -> 0 <= off ->
   need fuel t v = Ok n -> off + n <= mlen m ->
-  fill fuel t off v m <> Err SegV /\ forall m', fill fuel t off v m = Ok m' -> mlen m' = mlen m.
+  fill fuel t off v m <> Err SegV /\
+  forall m', fill fuel t off v m = Ok m' ->
+    mlen m' = mlen m /\
+    forall i, 0 <= i -> i < off \/ off + n <= i -> byte m' i = byte m i.
 Proof. intros fuel. exact (P_all fuel fuel (le_n _)). Qed.
 Print Assumptions C20_need_is_enough.
+
+(* "memory that is zero except where init writes", for keyword initialisers of fixed-size
+   structs/unions: the block has exactly sizeof bytes and every byte that does not belong to a
+   member named in the dict (for a bit-field: to its storage unit) is zero.
+   (Positional initialisers are tied to keyword ones on the implementation: tools/props/c20.py
+   compares ffi.new(T, [v1..vk]) with ffi.new(T, {name1: v1, ...}) over the leading
+   constructor-eligible fields; no theorem.) *)
+Theorem C20_unnamed_bytes_are_zero : forall fuel size fs kv m,
+  wf_type (LAgg size false fs) = true ->
+  new_bytes fuel (NewPtr (LAgg size false fs)) (VDict kv) = Ok m ->
+  mlen m = size /\
+  forall i, 0 <= i ->
+    (forall k x f, In (k, x) kv -> lookup_field fs k = Some f ->
+       i < lf_off f \/ lf_off f + lsize (lf_type f) <= i) ->
+    byte m i = 0.
+Proof. exact new_dict_unnamed_zero. Qed.
+Print Assumptions C20_unnamed_bytes_are_zero.
 
 (* History.  Before /repo commit 812503f the model had no item_guard and this file contained
      C20_sizing_dominates_refuted : exists T init, wf_type (new_target T) = true /\
